@@ -605,8 +605,7 @@ def _run(ctx):
     no_real = bool(os.environ.get("VERIF_C20_NO_REAL"))
     tmp = os.path.join(ctx.scratch, "tmp")
     os.makedirs(tmp, exist_ok=True)
-    os.environ["TMPDIR"] = tmp
-    tempfile.tempdir = tmp
+    tempfile.tempdir = tmp  # NOT os.environ["TMPDIR"]: pydot's vendored tempfile caches it for good
     import accelforge.mapper.FFM.main  # noqa: F401  (import once, before forking)
 
     # baselines (serial, hash seed of this process = 0, no cache) and the call-site traces
